@@ -198,6 +198,11 @@ def _shard(args):
         extra = getattr(mod, 'extra', None)
         if extra is not None:
             extra(tier, rec, derive_seed(seed, prop, shard), shard, NSHARDS)
+        try:
+            from .props import iocommon
+            iocommon.sweep()
+        except Exception:
+            pass
         out = rec.summary()
         out['exhaustive'] = exh_info
         out['wall'] = time.time() - t0
@@ -273,6 +278,11 @@ def main(argv):
         fails, rec = replay_file(mod, prop, argv[2], kidx)
         for kid, n in rec.known_hits.items():
             print('KNOWN-FINDING: property=%s %s :: %s' % (prop, kid, kmap[kid].text))
+        try:
+            from .props import iocommon
+            iocommon.sweep()
+        except Exception:
+            pass
         if fails:
             for sub, detail in fails:
                 print('FAIL %s: %s' % (sub, _short(detail)))
@@ -337,6 +347,11 @@ def main(argv):
         f = kmap[kid]
         print('KNOWN-FINDING: property=%s oracle=%s trigger=%s hits=%d :: %s' % (prop, f.oracle, f.trigger, n, f.text))
 
+    try:
+        from .props import iocommon
+        iocommon.sweep()
+    except Exception:
+        pass
     wall = time.time() - t0
     cov = {
         'evaluations': tot['evaluations'] + replay_count,
